@@ -548,6 +548,10 @@ func c03NoteCases() []c03NoteCase {
 				out = append(out, c03NoteCase{m, k, i})
 			}
 		}
+		// notifications without parameters: a nil map, an empty map, a ready-made notification with no params at all
+		for _, k := range []string{"nil-params", "empty-params", "generic-no-params"} {
+			out = append(out, c03NoteCase{m, k, 0})
+		}
 	}
 	return out
 }
@@ -577,6 +581,12 @@ func c03NoteEval(cs c03NoteCase) CaseResult {
 				emitErr = ns.SendLogMessage("info", str.S)
 			case "progress":
 				emitErr = ns.SendProgress(0.5, str.S)
+			case "nil-params":
+				emitErr = ns.SendCustomNotification("notifications/custom", nil)
+			case "empty-params":
+				emitErr = ns.SendCustomNotification("notifications/custom", map[string]interface{}{})
+			case "generic-no-params":
+				emitErr = ns.SendNotification(&mcp.Notification{Method: "notifications/custom"})
 			}
 			return mcp.NewTextResult("done"), nil
 		})
@@ -588,16 +598,23 @@ func c03NoteEval(cs c03NoteCase) CaseResult {
 		}
 		vsched.Quiesce()
 		if strings.HasSuffix(cs.Mode, "-push") {
+			params := map[string]interface{}{"s": str.S, "n": 1}
+			switch cs.Kind {
+			case "nil-params", "generic-no-params":
+				params = nil
+			case "empty-params":
+				params = map[string]interface{}{}
+			}
 			want = hx.CanonOf(map[string]interface{}{"s": str.S, "n": 1})
 			var err error
 			if mode == "ls" {
-				err = r.SSE.SendNotification("sse-0001", "notifications/custom", map[string]interface{}{"s": str.S, "n": 1})
+				err = r.SSE.SendNotification("sse-0001", "notifications/custom", params)
 			} else {
 				if e := rp.OpenStream(); e != nil {
 					viol = append(viol, V("harness", "GET: %v", e))
 					return
 				}
-				err = r.Server.SendNotification(rp.SID, "notifications/custom", map[string]interface{}{"s": str.S, "n": 1})
+				err = r.Server.SendNotification(rp.SID, "notifications/custom", params)
 			}
 			vsched.Quiesce()
 			if err != nil {
@@ -652,6 +669,11 @@ func c03NoteEval(cs c03NoteCase) CaseResult {
 			}
 			json.Unmarshal([]byte(notes[i]), &m)
 			switch cs.Kind {
+			case "nil-params", "empty-params", "generic-no-params":
+				// the schema oracle has judged the frame (params, when present, is an object); nothing was handed over
+				if len(m.Params) != 0 {
+					viol = append(viol, V(key("notification-params"), "no parameters were handed to the library, the notification written carries %s", truncate(hx.CanonOf(m.Params), 120)))
+				}
 			case "custom":
 				if got := hx.CanonOf(m.Params); want != "" && got != want {
 					viol = append(viol, V(key("notification-params"), "parameters written %s, handed to the library %s", truncate(got, 200), truncate(want, 200)))
